@@ -5,6 +5,8 @@
 # granted to it by virtue of its status as an intergovernmental organisation
 # nor does it submit to any jurisdiction.
 
+import re
+
 from loki.backend.fgen import FortranCodegen
 from loki.frontend.source import SourceStatus
 from loki.tools.util import as_tuple
@@ -96,12 +98,13 @@ class FortranCodegenConservative(FortranCodegen):
                 else_body = [self.visit(o.else_body, **kwargs)]
                 self.depth -= self.style.conditional_indent
                 if o.else_body:
-                    # Get the `ELSE` from source to get its indentation
+                    # Get the `ELSE` from source to get its indentation; the line
+                    # may carry a trailing comment
                     elseline = [
                         s for s in o.source.string.splitlines()
-                        if s.upper().strip() == 'ELSE'
+                        if re.fullmatch(r'\s*else\s*(!.*)?', s, re.IGNORECASE)
                     ]
-                    else_body = [elseline[-1]] + else_body
+                    else_body = [elseline[-1] if elseline else self.format_line('ELSE')] + else_body
 
                 # Recapture the footer line from source
                 footer = o.source.string.splitlines()[o.source.lines[1]-o.source.lines[0]]
